@@ -77,7 +77,7 @@ BigNsKinds == {"int64", "int", "uint", "uint64", "gen.Int"}      \* the kinds al
 Val(pv, x) == [pv |-> pv, k |-> "val", x |-> x]
 D0(pv) == [pv |-> pv, k |-> "d0", x |-> 0]
 D1(pv) == [pv |-> pv, k |-> "d1", x |-> 0]
-Any(pv) == [pv |-> pv, k |-> "any", x |-> 0]
+AnyAlt(pv) == [pv |-> pv, k |-> "any", x |-> 0]
 Unconv(pv, nd) == IF nd = 2 THEN <<D0(pv), D1(pv)>> ELSE <<D0(pv)>>                       \* (U), allowance A1
 ConvNN(a, nd) == IF nd = 2 THEN <<D1(a.pv)>> ELSE <<a>>                                   \* (S) / (C)
 Cell(name, alts) == [cell |-> name, par |-> "", alts |-> alts]
@@ -97,7 +97,7 @@ CellBool(v, F, nd) ==
                        [] OTHER -> Cell("Bool/str-other", Unconv("", nd)))
     [] k = "int" -> Either("Bool/number", "num", Val("", v.i # Zero), nd)
     [] k = "flt" -> Either("Bool/number", "num", Val("", v.f[1] \notin {"0", "-0"}), nd)
-    [] k \in {"big", "bytes"} -> Cell("Bool/other-text", <<Any("")>>)
+    [] k \in {"big", "bytes"} -> Cell("Bool/other-text", <<AnyAlt("")>>)
     [] OTHER -> Cell("Bool/unconvertible", Unconv("", nd))
 
 \* ------------------------------------------------------------------ alt.Int
@@ -115,12 +115,12 @@ CellInt(v, F, nd) ==
          (CASE sf.bi = 2 /\ InI64(sf.biv) -> Cell("Int/str-int", ConvNN(Val("", sf.biv), nd))
             [] sf.bi = 1 /\ InI64(sf.biv) -> Either("Int/str-int-loose", "strloose", Val("", sf.biv), nd)
             [] sf.pf = 2 -> IntOfFloat("Int/str-float", sf.pff, "strfltint", "fracS", nd)
-            [] sf.pf = 1 \/ sf.pfrange # 0 -> Cell("Int/str-float-loose", <<Any("")>>)
+            [] sf.pf = 1 \/ sf.pfrange # 0 -> Cell("Int/str-float-loose", <<AnyAlt("")>>)
             [] OTHER -> Cell("Int/str-other", Unconv("", nd)))
-    [] k = "time" -> (IF F.unsok THEN Either("Int/time", "timenum", Val("", F.uns), nd) ELSE Cell("Int/time-far", <<Any("")>>))
+    [] k = "time" -> (IF F.unsok THEN Either("Int/time", "timenum", Val("", F.uns), nd) ELSE Cell("Int/time-far", <<AnyAlt("")>>))
     [] k = "nil" -> NilCell("Int/nil", Zero, nd)
     [] k = "bool" -> Either("Int/bool", "boolnum", Val("", IF v.b THEN One ELSE Zero), nd)
-    [] k = "bytes" -> Cell("Int/other-text", <<Any("")>>)
+    [] k = "bytes" -> Cell("Int/other-text", <<AnyAlt("")>>)
     [] OTHER -> Cell("Int/unconvertible", Unconv("", nd))
 
 \* ------------------------------------------------------------------ alt.Float   (values are compared by their shortest repr)
@@ -130,13 +130,14 @@ CellFloat(v, F, nd) ==
     [] k = "int" -> Cell("Float/int", ConvNN(Val("", F.nf[1]), nd))
     [] k \in {"str", "big"} ->
          (CASE sf.pf = 2 -> Cell("Float/str-float", ConvNN(Val("", sf.pfv[1]), nd))
-            [] sf.pf = 1 -> Cell("Float/str-float-loose", <<Any("")>>)
+            [] sf.pf = 1 -> Cell("Float/str-float-loose", <<AnyAlt("")>>)
             [] sf.pfrange # 0 -> Either("Float/str-range", "strrange", Val("", IF sf.pfrange = 1 THEN "+Inf" ELSE "-Inf"), nd)
             [] OTHER -> Cell("Float/str-other", Unconv("", nd)))
-    [] k = "time" -> (IF F.tfx THEN Either("Float/time", "timenum", Val("", F.tf[1]), nd) ELSE Cell("Float/time-inexact", <<Any("")>>))
+    [] k = "time" -> (IF F.tfx THEN Either(IF F.unsok THEN "Float/time" ELSE "Float/time-far", "timenum", Val("", F.tf[1]), nd)
+                      ELSE Cell("Float/time-inexact", <<AnyAlt("")>>))
     [] k = "nil" -> NilCell("Float/nil", "0", nd)
     [] k = "bool" -> Either("Float/bool", "boolnum", Val("", IF v.b THEN "1" ELSE "0"), nd)
-    [] k = "bytes" -> Cell("Float/other-text", <<Any("")>>)
+    [] k = "bytes" -> Cell("Float/other-text", <<AnyAlt("")>>)
     [] OTHER -> Cell("Float/unconvertible", Unconv("", nd))
 
 \* ------------------------------------------------------------------ alt.String
@@ -146,9 +147,9 @@ CellString(v, F, nd) ==
     [] k = "bytes" -> Cell("String/bytes", IF nd = 2 THEN <<Val("", v.by), D1("")>> ELSE <<Val("", v.by)>>)
     [] k = "nil" -> NilCell("String/nil", "", nd)
     [] k = "bool" -> Cell("String/bool", ConvNN(Val("", IF v.b THEN "true" ELSE "false"), nd))
-    [] k = "int" -> Cell("String/int", ConvNN([pv |-> "", k |-> "istr", x |-> v.i], nd))
+    [] k = "int" -> Cell(IF InI64(v.i) THEN "String/int" ELSE "String/uint-over", ConvNN([pv |-> "", k |-> "istr", x |-> v.i], nd))
     [] k = "flt" -> (IF v.f[3] = 32 THEN Cell("String/float32", ConvNN([pv |-> "", k |-> "fstr32", x |-> v.f[2]], nd))
-                     ELSE Cell("String/float64", ConvNN([pv |-> "", k |-> "fstr64", x |-> v.f[1]], nd)))
+                     ELSE Cell("String/" \o v.g, ConvNN([pv |-> "", k |-> "fstr64", x |-> v.f[1]], nd)))
     [] k = "time" -> Cell("String/time", ConvNN([pv |-> "", k |-> "tstr", x |-> [t |-> v.t, n |-> v.n]], nd))
     [] k = "big" -> Cell("String/big", ConvNN(Val("", v.big), nd))
     [] OTHER -> Cell("String/unconvertible", Unconv("", nd))
@@ -161,13 +162,13 @@ CellTime(v, F, nd) ==
     [] k = "int" -> (IF ~InI64(v.i) THEN Cell("Time/uint-over", Unconv("", nd) \o <<Val("", TimeOfNs(v.i))>>)
                      ELSE IF v.g \in BigNsKinds THEN Cell("Time/int-ns", NsAlts("", v.i, nd))
                      ELSE PCell("Time/int-small", "smallint", NsAlts("conv", v.i, nd) \o Unconv("unconv", nd)))
-    [] k = "flt" -> (IF ff.nan \/ ff.inf \/ ~ff.usok THEN Cell("Time/float-far", <<Any("")>>)
+    [] k = "flt" -> (IF ff.nan \/ ff.inf \/ ~ff.usok THEN Cell("Time/float-far", <<AnyAlt("")>>)
                      ELSE Cell(IF v.f[3] = 32 THEN "Time/float32" ELSE "Time/float64",
                                ConvNN([pv |-> "", k |-> "tnear", x |-> [us |-> ff.us, tol |-> IF v.f[3] = 32 THEN 64000000 ELSE 1]], nd)))
     [] k = "str" -> (IF sf.pt THEN Cell("Time/str-time", ConvNN(Val("", [t |-> sf.ptt.t, n |-> sf.ptt.n]), nd))
                      ELSE Cell("Time/str-other", Unconv("", nd)))
     [] k = "nil" -> NilCell("Time/nil", ZeroTime, nd)
-    [] k \in {"big", "bytes"} -> Cell("Time/other-text", <<Any("")>>)
+    [] k \in {"big", "bytes"} -> Cell("Time/other-text", <<AnyAlt("")>>)
     [] OTHER -> Cell("Time/unconvertible", Unconv("", nd))
 
 Fns == {"Bool", "Int", "Float", "String", "Time"}
